@@ -1095,3 +1095,79 @@ REGISTRY[RX + 'Extractor.clean'].abstraction = 'inputs of 0..3 entries (list / d
 REGISTRY[RX + 'matrices2incremental_coverage'].abstraction = 'match matrices of <= 3 expressions x 3 examples (quick: 3x2 / 2x3) with symbolic frequencies >= 1 and symbolic match bits; Coverage is a record stub'
 
 REGISTRY[RX + 'rex_coverage'].abstraction = 'expression lists of length 0..3; re.compile / re.match are an uninterpreted predicate of (pattern text, flags, string); sums over the example lists are shared partial-sum functions'
+
+
+# -- sampling keeps every string with its own frequency (C14 / C18) ------------------------------------
+# Extractor.sample_examples / Extractor.sample.  random.sample is an assumed contract: k positions of the population,
+# pairwise different (Skolem function sample_pos); its choice is otherwise arbitrary, so the postcondition holds for
+# every draw of the generator.
+
+def _sampler_self(it):
+    rc = extract.load_module('tdda/rexpy/rexpy.py').classes['Extractor']
+    o = SObj('Extractor', {'all_examples': _examples_view(it, 'all_examples'), 'examples': _examples_view(it, 'examples'),
+                           '__open__': False}, label='self')
+    o.repo_class = rc
+    return o
+
+
+def _sample_result(it, name):
+    return (it.fresh(T.list(T.str), name + '_strings'), it.fresh(T.list(T.nat), name + '_freqs'))
+
+
+def _sampler_entry(it, senv):
+    pos = z3.Function(it.path.fresh_name('sample_pos'), z3.IntSort(), z3.IntSort())
+    it.ghost['sample_pos'] = pos
+    it.ghost['sample_calls'] = 0
+
+    def sample(it2, population, k):
+        if not isinstance(population, SList):
+            raise Unsupported('random.sample over a non-symbolic population')
+        it2.ghost['sample_calls'] += 1
+        if it2.ghost['sample_calls'] > 1:
+            raise Unsupported('second random.sample call')
+        kz = num_z(k)[0]
+        # random.sample raises ValueError for k outside 0..len(population)
+        if it2.branch(z3.Or(kz < 0, kz > population.n)):
+            raise PyExc('ValueError', 'Sample larger than population or is negative')
+        i, j = it2.bound_var('sp'), it2.bound_var('sq')
+        it2.path.assume(z3.ForAll([i], z3.Implies(z3.And(i >= 0, i < kz), z3.And(pos(i) >= 0, pos(i) < population.n))))
+        it2.path.assume(z3.ForAll([i, j], z3.Implies(z3.And(i >= 0, i < j, j < kz), pos(i) != pos(j))))
+        it2.ghost['sample_k'] = kz
+        return SList(kz, lambda q, population=population: population.get(pos(q)), population.elt, 'list')
+    it.spec_env['random'] = SObj('random-module', {'sample': Builtin(sample, 'random.sample'), '__open__': False})
+
+
+@specfn
+def sampled_pairs_are_stored_pairs(it, examples, n, result):
+    """result == (strings', freqs'), both of length n, and there are n pairwise different positions p(0..n-1) of the
+    stored examples with strings'[i] == strings[p(i)] and freqs'[i] == freqs[p(i)]: each sampled string carries its
+    own frequency, and no stored example is drawn twice."""
+    if not (isinstance(result, tuple) and len(result) == 2):
+        return False
+    rs, rf = result
+    if not (isinstance(rs, SList) and isinstance(rf, SList)):
+        return False
+    pos = it.ghost['sample_pos']
+    nz = num_z(n)[0]
+    st, fq = examples.attrs['strings'], examples.attrs['freqs']
+    i = it.bound_var('sr')
+    body = z3.And(zbool(values_equal(it, rs.get(i), st.get(pos(i)))),
+                  zbool(values_equal(it, rf.get(i), fq.get(pos(i)))))
+    return SBool(z3.And(rs.n == nz, rf.n == nz,
+                        z3.ForAll([i], z3.Implies(z3.And(i >= 0, i < nz), body))))
+
+
+_SENV = dict(ENV, sampled_pairs_are_stored_pairs=sampled_pairs_are_stored_pairs)
+contract(RX + 'Extractor.sample_examples', props=['C14', 'C18'],
+         params=OrderedDict([('examples', T.custom(_examples_view)), ('n', T.nat)]),
+         self_view=_sampler_self, on_entry=_sampler_entry, spec_env=_SENV, result=T.custom(_sample_result),
+         requires=[('no-more-than-stored', 'n <= len(examples.strings)')],
+         ensures=[('each-sampled-string-keeps-its-own-frequency', 'sampled_pairs_are_stored_pairs(examples, n, result)')])
+
+contract(RX + 'Extractor.sample', props=['C14', 'C18'], params=OrderedDict([('n', T.nat)]),
+         self_view=_sampler_self, on_entry=_sampler_entry, spec_env=_SENV, result=T.custom(_sample_result),
+         requires=[('no-more-than-stored', 'n <= len(self.all_examples.strings)')],
+         ensures=[('samples-the-full-example-store', 'sampled_pairs_are_stored_pairs(self.all_examples, n, result)')])
+
+REGISTRY[RX + 'Extractor.sample_examples'].abstraction = 'example store of any length (uninterpreted element functions); random.sample is an assumed contract (n pairwise different positions of the population, otherwise arbitrary)'
+REGISTRY[RX + 'Extractor.sample'].abstraction = REGISTRY[RX + 'Extractor.sample_examples'].abstraction
